@@ -284,7 +284,7 @@ def run_case(case):
                 nrm = FRAMES[fr][0] @ np.array([0, 0, 1.0])
                 mid = (lp + fp) / 2
                 # mirror plane between leader and follower (they sit above each other in h221)
-                link = cb.SymmetryLink(lp, fp, nrm, mid)
+                link = cb.SymmetryLink(lp, fp, nrm * 2.5, mid)  # non-unit normal
                 rel = lambda L, F: np.linalg.norm(F - (L - 2 * float((L - mid) @ nrm) * nrm))  # noqa: E731
             opt.add_link(link)
             follower = (to_grid[leader_v], to_grid[fol_v], rel)
